@@ -137,6 +137,22 @@ func (p propC04) Gen(r *Rng, tier string) *World {
 	if r.P(0.3) {
 		w.Extra["sibling"] = "1"
 	}
+	if p.id == "C04" && len(w.Cfg.Vars) > 0 && r.P(0.08) {
+		// an available variable whose value is nil (a missing attribute the
+		// store knows to be absent): a value like any other for eq/ne and user
+		// operators, a type error elsewhere — for Eval and TryEval alike
+		// (never a boolean-typed variable: nil under and/or leaves the domain)
+		var cand []string
+		for _, v := range w.Cfg.Vars {
+			if v.Ty != TBool {
+				cand = append(cand, v.Name)
+			}
+		}
+		if len(cand) > 0 {
+			w.Calls[0].Bind[cand[r.Intn(len(cand))]] = VNil()
+			w.Extra["nil_bind"] = "1"
+		}
+	}
 	if r.P(0.4) {
 		w.Extra["lazy_get"] = "1"
 	}
@@ -481,7 +497,7 @@ func (pr propC04) Run(w *World, st *Stats) *Violation {
 				return nil
 			}
 			// C04
-			if o.Val == nil && o.Err == nil {
+			if o.Val == nil && o.Err == nil && w.Extra["nil_bind"] != "1" {
 				return viol(ns(unavail), "nil-result", "TryEval returned (nil, nil) (unavailable: %v)", unavail)
 			}
 			return nil
